@@ -45,6 +45,9 @@ type KStep struct {
 	// ROCache: for the duration of this run the cache cannot be written ("file": cache.json is
 	// read-only, "dir": the .spok directory is); spok may stop with an error about its cache
 	ROCache string `json:"ro_cache,omitempty"`
+	// Flags: further flags of this run (--json, --quiet, -j, -q): how results are reported has no
+	// bearing on what may be skipped or on whether a damaged cache is an error
+	Flags []string `json:"flags,omitempty"`
 }
 
 // KillCase is a C10 case.
@@ -52,10 +55,12 @@ type KillCase struct {
 	// ProjDir names the directory holding the spokfile ("" = proj)
 	ProjDir string `json:"proj_dir,omitempty"`
 	// Invoke: how spok is pointed at the project (sandbox.Box.Invoke)
-	Invoke string            `json:"invoke,omitempty"`
-	Tasks  []KTask           `json:"tasks"`
-	Init   map[string]string `json:"init"`
-	Steps  []KStep           `json:"steps"`
+	Invoke string `json:"invoke,omitempty"`
+	// Outputs: "files" = standard output and error are regular files (sandbox.Box.FileOutputs)
+	Outputs string            `json:"outputs,omitempty"`
+	Tasks   []KTask           `json:"tasks"`
+	Init    map[string]string `json:"init"`
+	Steps   []KStep           `json:"steps"`
 	// Cpus: every run of the case is pinned to these CPUs (taskset); "" = all
 	Cpus string `json:"cpus,omitempty"`
 }
@@ -93,6 +98,7 @@ func genKill(t *rapid.T) KillCase {
 	c.Cpus = rapid.SampledFrom([]string{"", "", "", "0,1", "0"}).Draw(t, "cpus")
 	c.ProjDir = genProjDir(t)
 	c.Invoke = genInvoke(t)
+	c.Outputs = genOutputs(t)
 	return c
 }
 
@@ -157,6 +163,7 @@ func genKillBody(t *rapid.T) KillCase {
 			case 2:
 				st.ROCache = rapid.SampledFrom([]string{"file", "dir"}).Draw(t, "ro_cache")
 			}
+			st.Flags = rapid.SampledFrom([][]string{nil, nil, nil, nil, {"--json"}, {"--quiet"}, {"-j"}, {"--json", "--quiet"}}).Draw(t, "run_flags")
 		}
 		c.Steps = append(c.Steps, st)
 	}
@@ -237,6 +244,7 @@ func execKill(s *ev.Shard, b *sandbox.Box, c KillCase) *rp.Fail {
 	if err := b.ResetFor(c.ProjDir, c.Invoke); err != nil {
 		return &rp.Fail{Sig: "harness", Msg: err.Error()}
 	}
+	b.FileOutputs = c.Outputs == "files"
 	b.Cpus = c.Cpus
 	src := c.source()
 	files := map[string]string{"spokfile": src}
@@ -362,6 +370,7 @@ func execKill(s *ev.Shard, b *sandbox.Box, c KillCase) *rp.Fail {
 			if st.Force {
 				args = append(args, "--force")
 			}
+			args = append(args, st.Flags...)
 			args = append(args, st.Tasks...)
 			cwd := b.Proj
 			if st.Elsewhere {
